@@ -8,7 +8,14 @@
 //! * a *recording serializer* (`Rec`) turns each value into the serde-data-model tree the real
 //!   `Serialize` impl emits; the Lean driver re-encodes that tree with its postcard and bincode models
 //!   and must reproduce the real crates' bytes;
-//! * oracle (implementation only): `from(to(x)) == x` and `to(from(to(x))) == to(x)` for the three formats.
+//! * oracle (implementation only): `from(to(x)) == x` and `to(from(to(x))) == to(x)` for the three formats;
+//! * each `tree` request carries the type name and the real crates' bytes: the driver checks that the recorded
+//!   tree has the shape GENERATED for that type from the Rust sources (tools/gen/serde_shapes.py), and runs the
+//!   model DECODERS on the real bytes (must give back exactly the recorded tree);
+//! * `de <Type> <pc|bc> <hex>`: the real decoders are fed the valid encoding and crafted malformed variants of
+//!   it (truncations, bad variant index / option tag / bool, over-long varints, huge lengths, trailing
+//!   bytes); they must accept exactly when the model decoder (generated shape) accepts, consume the same
+//!   number of bytes, and the accepted value must re-serialise to the tree the model decoded.
 use crate::{ctx::{Ctx, Rng}, util::hex};
 use fuel_tx::{policies::{Policies, PolicyType}, ConsensusParameters, GasCosts, Receipt, Transaction};
 use serde::{de, de::IntoDeserializer, ser, Deserialize, Serialize};
@@ -162,9 +169,245 @@ where T: Serialize + for<'de> Deserialize<'de> + PartialEq + std::fmt::Debug {
             for (fp, d) in fails { ctx.oracle_fail(&format!("{ty}-{fp}"), &format!("tree {tree}"), &d); }
             ctx.count(ty);
             ctx.distinct(tree.as_bytes());
-            ctx.emit(&format!("tree {tree}"), &format!("{} {}", hex(&pc), hex(&bc)));
+            ctx.emit(&format!("tree {ty} {tree} {} {}", hex(&pc), hex(&bc)), "ok");
+            if ctx.rng.below(de_every(ty)) == 0 {
+                for (fmt, b) in [("pc", &pc), ("bc", &bc)] {
+                    de_probe::<T>(ctx, ty, fmt, b);   // the valid encoding itself (= the model's re-encoding)
+                    for _ in 0..5 { let m = mutate(&mut ctx.rng, b, fmt, top_variants(ty)); de_probe::<T>(ctx, ty, fmt, &m); }
+                }
+            }
         }
         Err(p) => ctx.oracle_fail(&format!("{ty}-panic"), &format!("tree {tree}"), &p),
+    }
+}
+
+
+// ---------------------------------------------------------------- malformed inputs for the real decoders
+fn de_every(ty: &str) -> u64 { match ty { "Policies" => 1, "Transaction" => 5, "Receipt" => 3, "ConsensusParameters" | "GasCosts" => 4, _ => 2 } }
+fn top_variants(ty: &str) -> Option<u32> { match ty { "Transaction" => Some(6), "Receipt" => Some(13), "Input" => Some(7), "Output" => Some(5), "ConsensusParameters" => Some(2), "GasCosts" => Some(7), _ => None } }
+
+/// one crafted variant of a valid encoding
+fn mutate(rng: &mut Rng, b: &[u8], fmt: &str, nvar: Option<u32>) -> Vec<u8> {
+    let mut m = b.to_vec();
+    let len = m.len().max(1) as u64;
+    let pos = rng.below(len) as usize;
+    match rng.below(11) {
+        0 => { m.truncate(pos); }                                                                   // truncation anywhere
+        1 => { m.pop(); }                                                                           // last byte missing
+        2 => { if let Some(x) = m.get_mut(pos) { *x = *rng.pick(&[0u8, 1, 2, 0x7f, 0x80, 0xff]); } }  // bad tag / bool / index / length
+        3 => { m.insert(pos.min(m.len()), if fmt == "pc" { 0x80 } else { rng.next() as u8 }); }     // shifted / over-long varint
+        4 => { if let Some(x) = m.get_mut(pos) { if *x < 0x80 { *x |= 0x80; m.insert(pos + 1, 0); } } } // non-canonical varint of the same value
+        5 => { let k = rng.range(1, 10) as usize; for _ in 0..k { m.insert(pos.min(m.len()), 0x80); } } // varint longer than any width allows
+        6 => { if fmt == "pc" { let big = [0xffu8, 0xff, 0xff, 0xff, 0xff, 0xff, 0xff, 0xff, 0xff, 0x01]; for (i, x) in big.iter().enumerate() { m.insert((pos + i).min(m.len()), *x); } }
+               else { for i in 0..8 { if let Some(x) = m.get_mut(pos + i) { *x = 0xff; } } } }      // huge length / value
+        7 => { let k = rng.range(1, 3) as usize; m.extend(rng.bytes(k)); }                          // trailing bytes
+        8 => { if let Some(n) = nvar {                                                              // variant index out of range
+                   if fmt == "pc" { let alt: &[&[u8]] = &[&[n as u8], &[0x7f], &[0xff, 0xff, 0xff, 0xff, 0x0f], &[0xff, 0xff, 0xff, 0xff, 0x1f], &[0x80, 0x80, 0x80, 0x80, 0x80, 0x00]];
+                       let a = *rng.pick(alt); m.splice(0..1.min(m.len()), a.iter().copied()); }
+                   else { let v: u32 = *rng.pick(&[n, n + 1, 0x100, u32::MAX]); for (i, x) in v.to_le_bytes().iter().enumerate() { if let Some(y) = m.get_mut(i) { *y = *x; } } } }
+               else if let Some(x) = m.get_mut(0) { *x = rng.next() as u8; } }
+        9 => { if let Some(x) = m.get_mut(pos) { *x = rng.next() as u8; } }                         // random byte
+        _ => { let k = rng.below(4) as usize; m.truncate(k); }                                      // almost empty
+    }
+    m
+}
+
+/// real decoder on arbitrary bytes: `ok <unconsumed> <tree of the decoded value>` | `err`
+fn de_probe<T>(ctx: &mut Ctx, ty: &str, fmt: &str, b: &[u8])
+where T: Serialize + for<'de> Deserialize<'de> + PartialEq + std::fmt::Debug {
+    let op = format!("de {ty} {fmt} {}", hex(b));
+    let r = ctx.guard(|| -> Result<Option<(String, usize)>, (&'static str, String)> {
+        if fmt == "pc" {
+            let full = postcard::from_bytes::<T>(b);
+            let take = postcard::take_from_bytes::<T>(b);
+            match (full, take) {
+                (Ok(v), Ok((w, rest))) => {
+                    if v != w { return Err(("postcard-from-bytes-vs-take-differ", String::new())); }
+                    // accepted values are fixed points of encode/decode
+                    let again = postcard::to_allocvec(&v).map_err(|e| ("postcard-reencode-of-accepted-fails", e.to_string()))?;
+                    match postcard::from_bytes::<T>(&again) { Ok(y) if y == v => {}, _ => return Err(("postcard-accepted-value-not-fixed-point", String::new())) }
+                    let t = v.serialize(Rec).map_err(|e| ("unrecordable", e.0))?;
+                    Ok(Some((t, rest.len())))
+                }
+                (Err(_), Err(_)) => Ok(None),
+                // take_from_bytes additionally runs `finalize`, which cannot fail for a slice
+                _ => Err(("postcard-from-bytes-vs-take-differ", String::new())),
+            }
+        } else {
+            match bincode::deserialize::<T>(b) {
+                Ok(v) => {
+                    // bincode (fixint) is canonical: the accepted value re-encodes to the consumed prefix
+                    let again = bincode::serialize(&v).map_err(|e| ("bincode-reencode-of-accepted-fails", e.to_string()))?;
+                    if again.len() > b.len() || again[..] != b[..again.len()] { return Err(("bincode-accepted-value-reencodes-differently", hex(&again))); }
+                    let t = v.serialize(Rec).map_err(|e| ("unrecordable", e.0))?;
+                    Ok(Some((t, b.len() - again.len())))
+                }
+                Err(_) => Ok(None),
+            }
+        }
+    });
+    let out = match r {
+        Ok(Ok(Some((t, rest)))) => { ctx.count(&format!("de.{ty}.{fmt}.ok")); if rest > 0 { ctx.count(&format!("de.{fmt}.ok-with-rest")); } format!("ok {rest} {t}") }
+        Ok(Ok(None)) => { ctx.count(&format!("de.{ty}.{fmt}.err")); "err".to_string() }
+        Ok(Err((fp, d))) => { ctx.oracle_fail(&format!("{ty}-{fp}"), &op, &d); "oracle".to_string() }
+        Err(p) => { ctx.oracle_fail(&format!("{ty}-decode-panic"), &op, &p); "panic".to_string() }
+    };
+    ctx.emit(&op, &out);
+}
+
+fn corpus(ctx: &mut Ctx) {
+    use crate::util::unhex;
+    // minimized boundary cases (literals): variant index just out of range, option tag 2, bool 2, u64 varint at the
+    // 10-byte limit (accepted) and one past it (rejected), over-long u16 varint, huge byte-string length, Policies with
+    // a values count that does not match the bits (legacy / compact), unknown high bits in PoliciesBits.
+    let out = |c: &mut Ctx, f: &str, h: &str| de_probe::<fuel_tx::Output>(c, "Output", f, &unhex(h));
+    out(ctx, "pc", "05"); out(ctx, "pc", "04"); out(ctx, "bc", "05000000"); out(ctx, "bc", "04000000"); out(ctx, "pc", "-"); out(ctx, "bc", "040000");
+    let rc = |c: &mut Ctx, f: &str, h: &str| de_probe::<Receipt>(c, "Receipt", f, &unhex(h));
+    rc(ctx, "pc", "090000"); rc(ctx, "pc", "0903ffffffffffffffffff0100"); rc(ctx, "pc", "0903ffffffffffffffffff0200");
+    rc(ctx, "pc", "09038080808080808080800000"); rc(ctx, "pc", "090400"); rc(ctx, "pc", "0d"); rc(ctx, "pc", "8900"); rc(ctx, "pc", "09800000");
+    rc(ctx, "bc", "09000000000000000000000000000000"); rc(ctx, "bc", "0900000003000000ffffffffffffffff0100000000000000"); rc(ctx, "bc", "0d000000");
+    let mut ret = vec![2u8]; ret.extend([7u8; 32]); ret.extend([1, 2]); ret.extend([9u8; 32]); ret.extend([3, 4]);
+    for tail in [&[0u8][..], &[1, 0], &[1, 2, 0xaa, 0xbb], &[2], &[1, 0xff, 0xff, 0xff, 0xff, 0xff, 0xff, 0xff, 0xff, 0xff, 0x01], &[1, 3, 0xaa], &[]] {
+        let mut b = ret.clone(); b.extend(tail); de_probe::<Receipt>(ctx, "Receipt", "pc", &b);
+    }
+    let po = |c: &mut Ctx, f: &str, h: &str| de_probe::<Policies>(c, "Policies", f, &unhex(h));
+    po(ctx, "pc", "0000000000"); po(ctx, "pc", "00000000"); po(ctx, "pc", "1000"); po(ctx, "pc", "100107"); po(ctx, "pc", "10020708"); po(ctx, "pc", "3f06010203040506");
+    po(ctx, "pc", "3f050102030405"); po(ctx, "pc", "c00000000000"); po(ctx, "pc", "d0000107"); po(ctx, "pc", "ffffffff0f06010203040506"); po(ctx, "pc", "ffffffff1f06010203040506");
+    po(ctx, "bc", "00000000"); po(ctx, "bc", &format!("0f000000{}", "00".repeat(32))); po(ctx, "bc", &format!("10000000{}{}", "0100000000000000", "0700000000000000"));
+    po(ctx, "bc", &format!("10000000{}", "0000000000000000")); po(ctx, "bc", &format!("10000000{}", "ffffffffffffffff")); po(ctx, "bc", &format!("000001000000000000000000{}", "00".repeat(28)));
+    let tx = |c: &mut Ctx, f: &str, h: &str| de_probe::<Transaction>(c, "Transaction", f, &unhex(h));
+    tx(ctx, "pc", "06"); tx(ctx, "pc", "02"); tx(ctx, "bc", "06000000");
+    let cp = |c: &mut Ctx, f: &str, h: &str| de_probe::<ConsensusParameters>(c, "ConsensusParameters", f, &unhex(h));
+    cp(ctx, "pc", "02"); cp(ctx, "pc", "0000"); cp(ctx, "bc", "0200000000");
+}
+
+// ---------------------------------------------------------------- Policies through serde_json (visit_map)
+const FLAG_NAMES: [&str; 6] = ["Tip", "WitnessLimit", "Maturity", "MaxFee", "Expiration", "Owner"];
+
+/// a `Policies` with arbitrary (also unknown) bits: only reachable by deserialisation (`from_bits_retain`)
+fn policies_any_bits(bits: u32, vals: &[u64; 6]) -> Option<Policies> {
+    let mut b = vec![]; varint(bits as u64, &mut b);
+    if bits & 0x30 == 0 { for v in &vals[..4] { varint(*v, &mut b); } }
+    else { let set: Vec<u64> = (0..6).filter(|i| bits & (1 << i) != 0).map(|i| vals[i]).collect(); varint(set.len() as u64, &mut b); for v in set { varint(v, &mut b); } }
+    postcard::from_bytes::<Policies>(&b).ok()
+}
+
+fn json_err_class(msg: &str) -> &'static str {
+    if msg.contains("duplicate field `bits`") { "duplicate-bits" } else if msg.contains("duplicate field `values`") { "duplicate-values" }
+    else if msg.contains("bits field should be set before values") { "bits-before-values" }
+    else if msg.contains("missing field `bits`") { "missing-bits" } else if msg.contains("missing field `values`") { "missing-values" }
+    else if msg.contains("isn't synchronized") { "not-synchronized" } else { "invalid" }
+}
+
+/// one JSON object given field by field: (key, kind, payload) with kind s = string, n = number, a = array of
+/// element tokens (decimal | neg | flt | str | null), o = other value; rendered as JSON text for serde_json
+fn polj(ctx: &mut Ctx, fields: &[(String, char, String)]) {
+    let mut text = String::from("{");
+    let mut toks = vec![];
+    for (i, (k, kind, p)) in fields.iter().enumerate() {
+        if i > 0 { text.push(','); }
+        text.push_str(&serde_json::to_string(k).unwrap()); text.push(':');
+        match kind {
+            's' => { text.push_str(&serde_json::to_string(p).unwrap()); toks.push(format!("{k}:s:{}", hex(p.as_bytes()))); }
+            'n' => { text.push_str(p); toks.push(format!("{k}:n:{p}")); }
+            'a' => { let els: Vec<&str> = if p.is_empty() { vec![] } else { p.split(',').collect() };
+                     text.push('['); text.push_str(&els.iter().map(|e| match *e { "neg" => "-1".to_string(), "flt" => "1.5".to_string(), "str" => "\"7\"".to_string(), "null" => "null".to_string(), d => d.to_string() }).collect::<Vec<_>>().join(",")); text.push(']');
+                     toks.push(format!("{k}:a:{}", if p.is_empty() { "-" } else { p })); }
+            _ => { text.push_str(match p.as_str() { "true" => "true", "obj" => "{\"a\":[1,{\"b\":null}]}", _ => "null" }); toks.push(format!("{k}:o:{p}")); }
+        }
+    }
+    text.push('}');
+    let op = format!("polj {}", toks.join(" "));
+    let r = ctx.guard(|| serde_json::from_str::<Policies>(&text));
+    let out = match r {
+        Ok(Ok(p)) => {
+            // accepted values are fixed points of the JSON round trip
+            let again = serde_json::to_string(&p).ok().and_then(|t| serde_json::from_str::<Policies>(&t).ok());
+            if again != Some(p) { ctx.oracle_fail("policies-json-accepted-value-not-fixed-point", &op, &text); }
+            ctx.count("polj.ok");
+            // the raw array is private: the value is reported as the binary tree it serialises to (bits + layout)
+            format!("ok {}", p.serialize(Rec).unwrap())
+        }
+        Ok(Err(e)) => { let c = json_err_class(&e.to_string()); ctx.count(&format!("polj.err.{c}")); format!("err {c}") }
+        Err(pmsg) => { ctx.oracle_fail("policies-json-decode-panic", &op, &pmsg); "panic".to_string() }
+    };
+    ctx.emit(&op, &out);
+}
+
+fn bits_text(rng: &mut Rng, bits: u32) -> String {
+    let names: Vec<String> = (0..6).filter(|i| bits & (1 << i) != 0).map(|i| FLAG_NAMES[i].to_string()).collect();
+    let rem = bits & !63;
+    let mut parts = names.clone();
+    if rem != 0 { parts.push(format!("0x{rem:x}")); }
+    match rng.below(14) {
+        0..=4 => parts.join(" | "),                                          // what bitflags writes
+        5 => parts.join("|"),
+        6 => format!("  {} ", parts.join("  |\t")),
+        7 => { parts.reverse(); parts.join(" | ") }
+        8 => { if let Some(f) = parts.first().cloned() { parts.push(f); } parts.join(" | ") }        // a flag twice
+        9 => format!("0x{bits:x}"),                                            // everything as hex
+        10 => format!("0x{}{bits:X}", if rng.chance(1, 2) { "+" } else { "000" }),
+        11 => format!("{} | ", parts.join(" | ")),                             // empty flag
+        12 => (*rng.pick(&["0x", "0X3", "0x100000000", "0xffffffff", "0x-1", "0x+", "tip", "Tip | Unknown", "", "   ", "|", "0x1 | 0x2", "0x 1", "Tip Owner", "0x1_0"])).to_string(),
+        _ => parts.join(" | ").to_lowercase(),
+    }
+}
+
+fn json_cases(ctx: &mut Ctx) {
+    // serialise: all 64 masks (public API) and values with unknown bits (deserialised), text compared with the model's
+    for round in 0..ctx.n(3, 20) {
+        for m in 0u32..64 {
+            let bits = if round == 0 { m } else { m | ((ctx.rng.word() as u32) & !63 & if ctx.rng.chance(1, 2) { 0xffff_ffc0 } else { 0x0000_0fc0 }) };
+            let mut vals = [0u64; 6]; for v in vals.iter_mut() { *v = ctx.rng.word(); }
+            let p = if round == 0 { Some(policies_from(bits, &vals)) } else { policies_any_bits(bits, &vals) };
+            let Some(p) = p else { ctx.oracle_fail("policies-postcard-rejects-unknown-bits", &format!("{bits}"), ""); continue };
+            let canon: Vec<u64> = (0..6).map(|i| if bits & (1 << i) != 0 { vals[i] } else if bits & 0x30 == 0 && i < 4 && round != 0 { vals[i] } else { 0 }).collect();
+            let op = format!("poljs {bits} {}", canon.iter().map(|v| v.to_string()).collect::<Vec<_>>().join(" "));
+            match ctx.guard(|| serde_json::to_string(&p)) {
+                Ok(Ok(t)) => {
+                    match serde_json::from_str::<Policies>(&t) { Ok(q) if q == p => {}, other => ctx.oracle_fail("Policies-json-roundtrip-differs", &op, &format!("{t} -> {other:?}")) }
+                    ctx.count(if bits & !63 != 0 { "poljs.unknown-bits" } else { "poljs.mask" });
+                    ctx.emit(&op, &t);
+                }
+                Ok(Err(e)) => ctx.oracle_fail("Policies-json-encode-fails", &op, &e.to_string()),
+                Err(pm) => ctx.oracle_fail("Policies-json-encode-panic", &op, &pm),
+            }
+        }
+    }
+    // deserialise: well-formed and malformed objects
+    let s = |x: &str| x.to_string();
+    // literals: reordered, duplicate, missing, unknown fields, wrong types
+    polj(ctx, &[(s("values"), 'a', s("1,2,3,4")), (s("bits"), 's', s("Tip"))]);
+    polj(ctx, &[(s("bits"), 's', s("Tip")), (s("values"), 'a', s("1,2,3,4"))]);
+    polj(ctx, &[(s("bits"), 's', s("Tip")), (s("bits"), 's', s("Tip")), (s("values"), 'a', s("1,2,3,4"))]);
+    polj(ctx, &[(s("bits"), 's', s("Tip")), (s("values"), 'a', s("1,2,3,4")), (s("values"), 'a', s("1,2,3,4"))]);
+    polj(ctx, &[(s("bits"), 's', s("Tip"))]); polj(ctx, &[(s("values"), 'a', s("1,2,3,4"))]); polj(ctx, &[]);
+    polj(ctx, &[(s("x"), 'o', s("obj")), (s("bits"), 's', s("Owner")), (s("y"), 'n', s("3")), (s("values"), 'a', s("9")), (s("z"), 'a', s("1,str"))]);
+    polj(ctx, &[(s("bits"), 'n', s("1")), (s("values"), 'a', s("1,2,3,4"))]); polj(ctx, &[(s("bits"), 's', s("Tip")), (s("values"), 'n', s("1"))]);
+    polj(ctx, &[(s("bits"), 's', s("Owner")), (s("values"), 'a', s(""))]); polj(ctx, &[(s("bits"), 's', s("Owner")), (s("values"), 'a', s("1,2"))]);
+    polj(ctx, &[(s("bits"), 's', s("Tip")), (s("values"), 'a', s("1,2,3"))]); polj(ctx, &[(s("bits"), 's', s("Tip")), (s("values"), 'a', s("1,2,3,4,5"))]);
+    polj(ctx, &[(s("bits"), 's', s("Tip")), (s("values"), 'a', s("1,2,3,18446744073709551615"))]); polj(ctx, &[(s("bits"), 's', s("Tip")), (s("values"), 'a', s("1,2,3,18446744073709551616"))]);
+    polj(ctx, &[(s("bits"), 's', s("0x40")), (s("values"), 'a', s("0,0,0,0"))]); polj(ctx, &[(s("bits"), 's', s("")), (s("values"), 'a', s("0,0,0,0"))]);
+    for _ in 0..ctx.n(4000, 80000) {
+        let bits: u32 = if ctx.rng.chance(3, 4) { ctx.rng.below(64) as u32 } else { (ctx.rng.word() as u32) & if ctx.rng.chance(1, 2) { 0xfff } else { u32::MAX } };
+        let text = bits_text(&mut ctx.rng, bits);
+        let nset = (bits & 63).count_ones() as u64;
+        let n = match ctx.rng.below(8) { 0..=3 => if bits & 0x30 == 0 { 4 } else { nset }, 4 => 4, 5 => nset, _ => ctx.rng.below(8) };
+        let mut els: Vec<String> = (0..n).map(|_| ctx.rng.word().to_string()).collect();
+        if ctx.rng.chance(1, 12) && !els.is_empty() { let i = ctx.rng.below(els.len() as u64) as usize; els[i] = (*ctx.rng.pick(&["neg", "flt", "str", "null", "18446744073709551616", "0"])).to_string(); }
+        let fb = (s("bits"), 's', text); let fv = (s("values"), 'a', els.join(","));
+        let unk = (format!("u{}", ctx.rng.below(3)), *ctx.rng.pick(&['o', 'n', 'a', 's']), s("1"));
+        let unk = (unk.0, unk.1, if unk.1 == 'o' { s("obj") } else { unk.2 });
+        let fields: Vec<(String, char, String)> = match ctx.rng.below(12) {
+            0..=5 => vec![fb, fv],
+            6 => vec![fv, fb],
+            7 => vec![unk.clone(), fb, unk, fv],
+            8 => vec![fb.clone(), fv, fb],
+            9 => vec![fb, fv.clone(), fv],
+            10 => if ctx.rng.chance(1, 2) { vec![fb] } else { vec![fv] },
+            _ => vec![fb, (s("values"), *ctx.rng.pick(&['n', 's', 'o']), s("1"))],
+        };
+        polj(ctx, &fields);
     }
 }
 
@@ -177,6 +420,7 @@ fn policies_from(bits: u32, vals: &[u64; 6]) -> Policies {
 fn varint(mut n: u64, out: &mut Vec<u8>) { loop { if n < 128 { out.push(n as u8); return; } out.push((n % 128) as u8 | 0x80); n /= 128; } }
 
 pub fn run(ctx: &mut Ctx) {
+    corpus(ctx);
     // 1. Policies: every mask x boundary values through the public API; tree must equal the model's `ser`
     for bits in 0u32..64 {
         for k in 0..ctx.n(6, 40) {
@@ -238,6 +482,7 @@ pub fn run(ctx: &mut Ctx) {
         let mut r = ctx.rng.clone(); ctx.rng.next();
         if let Some(x) = gen::<fuel_tx::Output>(&mut r) { case(ctx, "Output", &x); }
     }
+    json_cases(ctx);
     let _ = write!(String::new(), "");
 }
 
